@@ -83,6 +83,53 @@ CLAIMS = {
              "provenance of the stored object), duplicate suppression atoms, the capacity guard on the exact max x len grid for order comparisons, "
              "return value <=> stored, and order/capacity preservation of the move constructors and the fragmentation setter.",
         ref="DESIGN.md section 5 C12"),
+    "C04": dict(
+        technique="abstract interpretation of the routing arithmetic with a symbolic 12-bit address carrying per-bit provenance; syntactic who-translates check",
+        text="Decides the structural clauses of C04 for all addresses at once: _begin's paths are exactly the five digit counts and on each the masks, "
+             "parent (address without top digit), parent pipe (top digit) and level are read off bit by bit; _logi_2_phys picks pipe 0 / pipe 5 / the "
+             "parent pipe and cuts the destination after exactly one more digit, with bit-aligned comparisons; one logical->physical translator feeds "
+             "every address programmed into the radio; the pipes of a node share bytes 1-4 and differ in byte 0; table bytes distinct. All-pairs "
+             "reachability within 8 hops and global uniqueness of the 781x6 physical addresses are arithmetic facts over runtime values and are declined.",
+        ref="DESIGN.md section 5 C04"),
+    "C05": dict(
+        technique="abstract interpretation with linear length algebra and guard regions (frame size, validation gate) and path-condition analysis of the receive dispatch",
+        text="Decides, inside one node, that every frame handed to the radio is at most 32 bytes and starts with the packed header, that "
+             "_validate_msg_len has exactly the documented raise/False/True regions and gates every public sender (with fragmentation off at most the "
+             "first 24 bytes are sent), and that a received frame is queued only on paths establishing to_node == own address or == 0o100, after both "
+             "address validations, at most once, while frames for other nodes are forwarded and not queued. Delivery over a topology is declined.",
+        ref="DESIGN.md section 5 C05"),
+    "C11": dict(
+        technique="abstract interpretation of header pack/unpack with unconstrained fields (format, argument provenance, guard region) and of the fragment loop for lengths around every boundary; constant table comparison",
+        text="Decides the wire format for all field values: HHHBB without big-endian prefix, argument i depends on exactly TMRh20 field i and is masked "
+             "into its code's range, unpack stores value i into field i from buffer[0:8], refuses exactly lengths 0..7, sizes coherent (8 = 32 - 24); "
+             "frame = header + unmodified message; 30 protocol constants equal TMRh20's; for message lengths around every fragment boundary every "
+             "emitted radio payload is checked (count, first/more/last, reserved countdown with type in the last, shared id, contiguous 24-byte "
+             "partition, <= 32 bytes, type restored on every exit incl. abort). Running a reference reassembler is declined.",
+        ref="DESIGN.md section 5 C11"),
+    "C13": dict(
+        technique="exhaustive abstract evaluation of is_ack_type over all 256 types; path-condition analysis of _write by value identity for emit/wait paths over types x send types",
+        text="Decides that acknowledged types are exactly 65..191, that a NETWORK_ACK is emitted only on paths establishing success of the first "
+             "transmission, an acknowledged type, next hop == destination and origin != self - exactly once, addressed to the origin, routed by a second "
+             "next-hop computation, only for TX_ROUTED; that a NETWORK_ACK is awaited only when next hop != destination, only by the origin's routed "
+             "write, and the wait ends only on a received NETWORK_ACK (True) or a clock test derived from route_timeout (False); that a received "
+             "NETWORK_ACK is returned and never queued. Arrival on air and the wall-clock bound are declined.",
+        ref="DESIGN.md section 5 C13"),
+    "C14": dict(
+        technique="abstract interpretation of multicast()/multicast_level over the level domain, of the multicast receive branch over its configuration space, of the EN_AA register at every radio send, and bit-provenance dependence analysis of _pipe_address",
+        text="Decides the level clamp agreement (0..4, own level by default) between multicast() and the multicast_level setter, that multicast frames "
+             "are sent with EN_AA.0 = 0 on a pipe-0 address, that a received multicast is queued once and re-broadcast exactly once to (level "
+             "address << 3) iff relay, that polls are answered at most once, physically, never queued and never by an unconnected node, and that the "
+             "shared pipe-0 address depends on the node address only through its digit count while ordinary addresses depend digit-wise. Which nodes "
+             "actually receive is declined.",
+        ref="DESIGN.md section 5 C14"),
+    "C15": dict(
+        technique="exception-escape analysis: compositional abstract interpretation of update() x node classes on an arbitrary payload with collected raise-capable sites discharged by abstract values/guard facts/frozen table; validator grammar from a symbolic 16-bit run; loop variant classification",
+        text="Decides that no subscript, struct.pack/unpack, bytes([..]) or raise reachable from update() of the four node classes can fire for an "
+             "arbitrary received payload (sites are discharged by value ranges and guard facts; three index sites into the 6-byte suffix table are "
+             "frozen with reasons tied to the validator grammar), that the validator accepts exactly 0, the three reserved addresses and 1-4 octal digits "
+             "each in 1..5 (derived from its code for all 65536 values at once), that the translator cannot raise for any admitted address, that both "
+             "validations dominate queueing/forwarding, and that every reachable loop has a bounded variant.",
+        ref="DESIGN.md section 5 C15"),
 }
 
 NOT_APPLICABLE_REASON = "check not built yet (build in progress, see DESIGN.md section 9)"
